@@ -52,7 +52,20 @@ fn real_main() {
             let shard: usize = arg("--shard", "0").parse().unwrap();
             let nshards: usize = arg("--nshards", "1").parse().unwrap();
             let mut r = Report::new("table", "C15", &config);
-            table::run_c15(&tier, odd, shard, nshards, &mut r);
+            // on a thread with a small stack: formatting must not need stack in proportion to the data (a recursive
+            // formatter overflows here with the 16 KiB all-escapes string; the crash protocol reports it)
+            std::thread::scope(|s| {
+                let h = std::thread::Builder::new().stack_size(512 << 10).spawn_scoped(s, || table::run_c15(&tier, odd, shard, nshards, &mut r)).expect("spawn");
+                if let Err(e) = h.join() {
+                    std::panic::resume_unwind(e);
+                }
+            });
+            r
+        }
+        #[cfg(feature = "serde")]
+        "c17s" => {
+            let mut r = Report::new("liar-serde", "C17", &config);
+            table::run_c17_serde(odd, &mut r);
             r
         }
         "c09" | "c12r" => {
